@@ -2,6 +2,7 @@
 import re
 import absint
 from engines import float_div_sites, kinds_in_type, KIND_FIELDS, kind_of_segment, kind_elements
+from engines import check_required_steps
 from engines import check_complete_iteration
 from prov import Prov, params_of, call_atoms
 
@@ -91,6 +92,14 @@ def run(ck, prog, ctx):
         ck.ob("KIND", "K1/%s" % rb.short, not foreign, "%s (computes the %s IC) %s" % (rb.short, K, "touches no other annotation kind" if not foreign else "reads a %s element: %s" % (foreign[0][0], foreign[0][1])), where=rb.where(foreign[0][2] if foreign else None))
 
     check_complete_iteration(ck, "KIND", prog, sorted(by_body), "the terms of the ontology")
+
+    for bid in sorted(by_body):
+        rb = prog.bodies[bid]
+        if rb.kind in ("Fn", "AssocFn"):
+            check_required_steps(ck, "KIND", prog, rb, [("set_%s for every term" % "/".join(sorted(by_body[bid])), lambda t: (t.callee.res or "").startswith(IC + "::set_"))])
+    cic0 = prog.one(r"^ontology::builder::Builder::<ontology::builder::ConnectedTerms>::calculate_information_content$")
+    if cic0 is not None:
+        check_required_steps(ck, "KIND", prog, cic0, [(k, (lambda kk: (lambda t: (t.callee.res or "").endswith("::calculate_%s_ic" % kk)))(k)) for k in ("gene", "omim_disease", "orpha_disease")])
 
     # ---- inside the setters
     calc = prog.body(IC + "::calculate")
